@@ -432,14 +432,17 @@ var interchangeableWords = map[string]string{
 }
 
 var punctuationMappings = map[rune]string{
-	'-': "-",
-	'‒': "-",
-	'–': "-",
-	'—': "-",
-	'‐': "-",
-	'©': "(c)",
-	'§': "(s)",
-	'¤': "(s)",
-	'·': " ",
-	'*': " ",
+	'-':      "-",
+	'‒':      "-",
+	'–':      "-",
+	'—':      "-",
+	'‐':      "-",
+	'\u2011': "-", // non-breaking hyphen
+	'\u2015': "-", // horizontal bar
+	'\u2212': "-", // minus sign
+	'©':      "(c)",
+	'§':      "(s)",
+	'¤':      "(s)",
+	'·':      " ",
+	'*':      " ",
 }
